@@ -636,7 +636,7 @@ def gen_sequence(r, tier, plot_lane=False, malformed=False):
         elif fn == "histogram1d":
             ok = [i for i in ls if h1ok[i]]
             call = {"fn": "histogram1d", "layers": r.choice([ok, ok, ok + ["raw:mass"]]) or ["raw:mass"], "opts": r.choice([1, 1, None])}
-            if r.random() < 0.2:
+            if r.random() < 0.45:
                 call["logx"] = True
         elif fn == "scatter":
             xy = r.choice([("density", "mass"), ("position.x", "position.y"), ("mass", "temperature")])
